@@ -8,6 +8,7 @@ import HapModel.Drv.C11
 import HapModel.Drv.C12
 import HapModel.Drv.C13
 import HapModel.Drv.C14
+import HapModel.Drv.C15
 import HapModel.Drv.C17
 import HapModel.Drv.C18
 import HapModel.Drv.C20
@@ -35,6 +36,8 @@ def dispatch1 (op : String) (j : Json) : R Json :=
   | "hapQuery" => hHapQuery j
   | "gtStore" => hGtStore j
   | "gtRestrict" => hGtRestrict j
+  | "phenoParse" => hPhenoParse j
+  | "uniqNames" => hUniqNames j
   | _ => throw s!"unknown op {op}"
 
 /-- {"op":"batch","reqs":[…]} → {"resps":[…]} -/
